@@ -9,5 +9,7 @@ mkdir -p $B/src
 rsync -a --delete --exclude .git /repo/ $B/src/
 cp -r harness/inject/. $B/src/
 (cd $B/src && go mod edit -require=github.com/anishathalye/porcupine@v1.3.0 && go build -race -tags verif -trimpath -o $B/driver ./verifharness/cmd/driver) || { rm -rf $B; exit 1; }
+# oracle self-tests on synthetic logs: a conforming trace passes, a hand-written violation of each clause is flagged
+(cd $B/src && go test -tags verif -vet=off -count=1 -run TestOracleSelf ./verifharness/cmd/driver/) || { rm -rf $B; echo "oracle self-tests FAILED"; exit 1; }
 rm -rf $B
 echo setup ok
